@@ -15,7 +15,7 @@ assert line, 'no confirm line'
 assert 'demo_without_patch_rc=0 demo_with_patch_rc=1' in line[-1] and '673 passed' in line[-1], line[-1]
 head = os.popen('git -C /repo rev-parse --short HEAD').read().strip()
 meta = {
- "property": ID,
+ "property": ID[:3], "seed_id": ID,
  "author": "independent sub-agent given only the property record and a scratch worktree of /repo (nothing from /verif)",
  "repo_head_when_written": head,
  "change": change,
